@@ -367,3 +367,78 @@ func (p *Prog) DeltaOf(ins ssa.Instruction) (Delta, bool) {
 	}
 	return Delta{}, false
 }
+
+// FieldImmutable: the field is written only through freshly allocated objects (constructors / literals) and its address
+// is never taken for anything but a plain load or such a store: after construction every load of it through the same
+// object yields the same value, whatever other goroutines do.
+func (p *Prog) FieldImmutable(f FieldRef) bool {
+	if f.Type == nil {
+		return false
+	}
+	if p.immutableField == nil {
+		p.immutableField = map[string]bool{}
+	}
+	key := p.FieldKey(f)
+	if v, ok := p.immutableField[key]; ok {
+		return v
+	}
+	res := true
+	for _, fn := range p.Funcs {
+		for _, b := range fn.Blocks {
+			for _, ins := range b.Instrs {
+				fa, ok := ins.(*ssa.FieldAddr)
+				if !ok || fa.Field != f.Index {
+					continue
+				}
+				fr, base, ok := fieldOf(fa)
+				if !ok || !sameField(fr, f) {
+					continue
+				}
+				refs := fa.Referrers()
+				if refs == nil {
+					continue
+				}
+				for _, r := range *refs {
+					switch x := r.(type) {
+					case *ssa.UnOp:
+						if x.Op != token.MUL {
+							res = false
+						}
+					case *ssa.Store:
+						if x.Addr != ssa.Value(fa) {
+							res = false // the field's address is stored somewhere
+						} else if _, fresh := AccessPath(base).Root.(*ssa.Alloc); !fresh {
+							res = false
+						}
+					case *ssa.DebugRef:
+					default:
+						res = false
+					}
+				}
+			}
+		}
+	}
+	if res {
+		// whole-struct assignment through a non-fresh pointer (*x = y) also rewrites the field
+		for _, fn := range p.Funcs {
+			for _, b := range fn.Blocks {
+				for _, ins := range b.Instrs {
+					st, ok := ins.(*ssa.Store)
+					if !ok {
+						continue
+					}
+					if _, isFA := st.Addr.(*ssa.FieldAddr); isFA {
+						continue
+					}
+					if d := derefNamed(st.Addr.Type()); d != nil && types.Identical(d, f.Type) {
+						if _, fresh := AccessPath(st.Addr).Root.(*ssa.Alloc); !fresh {
+							res = false
+						}
+					}
+				}
+			}
+		}
+	}
+	p.immutableField[key] = res
+	return res
+}
